@@ -231,7 +231,7 @@ CHECKS = {
         "level": "model_checking",
         "technique": "TLA+ spec Newtype (lowering walk: hook registration pre-pass, current_impl_type save/set/restore, Call-arm rewrite) with "
                      "invariant RewrittenIffMust over all declaration orders x hook kinds; generated Rust inspected per construction site; "
-                     "sampled programs compiled and run on accepted / rejected arguments",
+                     "sampled programs compiled and run on accepted / rejected arguments; underlying types int, str, List[int], Dict[str, int]",
         "text": "Newtype.tla transcribes the three cooperating mechanisms of checked construction and states MustValidate from the property; "
                 "TLC checks for every declaration order and hook kind that exactly the sites that must validate are rewritten. Every "
                 "scenario (x underlying int/str) is rendered with one function per construction site (let, argument, return, field "
